@@ -99,4 +99,179 @@ theorem floatOpt_strip (s : Str) : floatOpt (strip s) = floatOpt s := by
   unfold floatOpt
   rw [isBlank_strip, parseFloat_strip]
 
+
+/-! ### Column lengths under `appendAll` -/
+
+def bump (t : Str) (v : Option Rat) (kc : Str × Col) : Str × Col := if kc.1 == t then (kc.1, kc.2 ++ [v]) else kc
+
+theorem colAppend_eq {d : List (Str × Col)} {t : Str} {v : Option Rat} {d' : List (Str × Col)}
+    (h : colAppend d t v = some d') : d' = d.map (bump t v) := by
+  unfold colAppend at h
+  split at h
+  · have := Option.some.inj h
+    rw [← this]
+    apply List.map_congr_left
+    intro kc _
+    obtain ⟨k, c⟩ := kc
+    simp [bump]
+  · simp at h
+
+/-- length of the column(s) named `k` after the appends: +1 for each occurrence of `k` in `names` -/
+def grown (names : List Str) (kn : Str × Nat) : Str × Nat := (kn.1, kn.2 + names.count kn.1)
+
+def lensOf (d : List (Str × Col)) : List (Str × Nat) := d.map fun kc => (kc.1, kc.2.length)
+
+theorem lensOf_bump (d : List (Str × Col)) (t : Str) (v : Option Rat) :
+    lensOf (d.map (bump t v)) = (lensOf d).map (grown [t]) := by
+  unfold lensOf
+  rw [List.map_map, List.map_map]
+  apply List.map_congr_left
+  intro kc _
+  obtain ⟨k, c⟩ := kc
+  by_cases hk : k = t
+  · subst hk; simp [bump, grown]
+  · have : (t == k) = false := by simp [Ne.symm hk]
+    simp [bump, grown, hk, List.count_cons, this]
+
+theorem grown_grown (a b : List Str) (kn : Str × Nat) : grown b (grown a kn) = grown (a ++ b) kn := by
+  simp [grown, List.count_append]; omega
+
+theorem appendObs_lens {d d' : Data} {t : Str} {a b c : Option Rat} (h : d.appendObs t a b c = .ok d') :
+    lensOf d'.obs = (lensOf d.obs).map (grown [t]) ∧ lensOf d'.lli = (lensOf d.lli).map (grown [t]) ∧
+    lensOf d'.snr = (lensOf d.snr).map (grown [t]) ∧
+    d'.time = d.time := by
+  unfold Data.appendObs at h
+  cases ho : colAppend d.obs t a with
+  | none => simp [ho, req, bind, Except.bind, pure, Except.pure, throw, throwThe, MonadExcept.throw, MonadExceptOf.throw] at h
+  | some o =>
+    cases hl : colAppend d.lli t b with
+    | none => simp [ho, hl, req, bind, Except.bind, pure, Except.pure, throw, throwThe, MonadExcept.throw, MonadExceptOf.throw] at h
+    | some l =>
+      cases hs : colAppend d.snr t c with
+      | none => simp [ho, hl, hs, req, bind, Except.bind, pure, Except.pure, throw, throwThe, MonadExcept.throw, MonadExceptOf.throw] at h
+      | some s =>
+        simp [ho, hl, hs, req, bind, Except.bind, pure, Except.pure] at h
+        subst h
+        simp only
+        rw [colAppend_eq ho, colAppend_eq hl, colAppend_eq hs]
+        exact ⟨lensOf_bump _ _ _, lensOf_bump _ _ _, lensOf_bump _ _ _, trivial⟩
+
+theorem appendAll_lens (ts : List (Str × Option Rat × Option Rat × Option Rat)) :
+    ∀ (d d' : Data), appendAll d ts = .ok d' →
+      lensOf d'.obs = (lensOf d.obs).map (grown (ts.map (·.1))) ∧
+      lensOf d'.lli = (lensOf d.lli).map (grown (ts.map (·.1))) ∧
+      lensOf d'.snr = (lensOf d.snr).map (grown (ts.map (·.1))) ∧ d'.time = d.time := by
+  induction ts with
+  | nil =>
+    intro d d' h
+    simp [appendAll, pure, Except.pure] at h
+    subst h
+    simp [grown, lensOf]
+  | cons x rest ih =>
+    intro d d' h
+    simp only [appendAll, List.foldlM_cons, bind, Except.bind] at h
+    cases h1 : d.appendObs x.1 x.2.1 x.2.2.1 x.2.2.2 with
+    | error e => simp [h1] at h
+    | ok d1 =>
+      simp only [h1] at h
+      have hr := ih d1 d' h
+      have h0 := appendObs_lens h1
+      obtain ⟨r1, r2, r3, r4⟩ := hr
+      obtain ⟨o1, o2, o3, o4⟩ := h0
+      refine ⟨?_, ?_, ?_, by rw [r4, o4]⟩
+      · rw [r1, o1, List.map_map]; apply List.map_congr_left; intro kn _; simp [grown_grown]
+      · rw [r2, o2, List.map_map]; apply List.map_congr_left; intro kn _; simp [grown_grown]
+      · rw [r3, o3, List.map_map]; apply List.map_congr_left; intro kn _; simp [grown_grown]
+
+
+
+def rowCols (d : Data) : List Str × List Int × Col × List Str × List Str × List Str × List Str :=
+  (d.time, d.epochFlag, d.clk, d.station, d.system, d.satellite, d.satnum)
+
+theorem appendObs_rows {d d' : Data} {t : Str} {a b c : Option Rat} (h : d.appendObs t a b c = .ok d') :
+    rowCols d' = rowCols d := by
+  unfold Data.appendObs at h
+  cases ho : colAppend d.obs t a with
+  | none => simp [ho, req, bind, Except.bind, pure, Except.pure, throw, throwThe, MonadExcept.throw, MonadExceptOf.throw] at h
+  | some o =>
+    cases hl : colAppend d.lli t b with
+    | none => simp [ho, hl, req, bind, Except.bind, pure, Except.pure, throw, throwThe, MonadExcept.throw, MonadExceptOf.throw] at h
+    | some l =>
+      cases hs : colAppend d.snr t c with
+      | none => simp [ho, hl, hs, req, bind, Except.bind, pure, Except.pure, throw, throwThe, MonadExcept.throw, MonadExceptOf.throw] at h
+      | some s =>
+        simp [ho, hl, hs, req, bind, Except.bind, pure, Except.pure] at h
+        subst h
+        rfl
+
+theorem appendAll_rows (ts : List (Str × Option Rat × Option Rat × Option Rat)) :
+    ∀ (d d' : Data), appendAll d ts = .ok d' → rowCols d' = rowCols d := by
+  induction ts with
+  | nil =>
+    intro d d' h
+    simp [appendAll, pure, Except.pure] at h
+    subst h; rfl
+  | cons x rest ih =>
+    intro d d' h
+    simp only [appendAll, List.foldlM_cons, bind, Except.bind] at h
+    cases h1 : d.appendObs x.1 x.2.1 x.2.2.1 x.2.2.2 with
+    | error e => simp [h1] at h
+    | ok d1 =>
+      simp only [h1] at h
+      rw [ih d1 d' h, appendObs_rows h1]
+
+theorem nodup_count {l : List Str} (h : l.Nodup) (a : Str) : l.count a = if a ∈ l then 1 else 0 := by
+  induction l with
+  | nil => simp
+  | cons x rest ih =>
+    rw [List.nodup_cons] at h
+    have := ih h.2
+    by_cases hx : x = a
+    · subst hx
+      simp [List.count_cons, this, h.1]
+    · have hne : (x == a) = false := by simp [hx]
+      have hne' : ¬ a = x := fun h' => hx h'.symm
+      simp [List.count_cons, this, hne, hne']
+
+theorem count_filter_not_mem (all types : List Str) (a : Str) :
+    (all.filter fun t => !types.contains t).count a = if a ∈ types then 0 else all.count a := by
+  induction all with
+  | nil => simp
+  | cons x rest ih =>
+    by_cases hx : x ∈ types
+    · have : (!types.contains x) = false := by simp [hx]
+      rw [List.filter_cons, this]
+      simp only [Bool.false_eq_true, if_false]
+      rw [ih]
+      by_cases ha : a ∈ types
+      · simp [ha]
+      · have : ¬ x = a := fun h => ha (h ▸ hx)
+        have hb : (x == a) = false := by simp [this]
+        simp [ha, List.count_cons, hb]
+    · have : (!types.contains x) = true := by simp [hx]
+      rw [List.filter_cons, this]
+      simp only [if_true]
+      rw [List.count_cons, List.count_cons, ih]
+      by_cases ha : a ∈ types
+      · have : ¬ x = a := fun h => hx (h ▸ ha)
+        have hb : (x == a) = false := by simp [this]
+        simp [ha, hb]
+      · simp [ha]
+
+/-- every type of the file is appended to exactly once per record: the types of the system, then the
+types the system does not have -/
+theorem count_types_unused {all types : List Str} (hall : all.Nodup) (htypes : types.Nodup)
+    (hsub : ∀ t ∈ types, t ∈ all) (a : Str) (ha : a ∈ all) :
+    (types ++ all.filter fun t => !types.contains t).count a = 1 := by
+  rw [List.count_append, nodup_count htypes, count_filter_not_mem, nodup_count hall]
+  by_cases h : a ∈ types <;> simp [h, ha]
+
+theorem grown_all {l : List (Str × Nat)} {names : List Str} {n : Nat}
+    (hn : ∀ kn ∈ l, kn.2 = n) (hc : ∀ kn ∈ l, names.count kn.1 = 1) :
+    ∀ kn ∈ l.map (grown names), kn.2 = n + 1 := by
+  intro kn hkn
+  rw [List.mem_map] at hkn
+  obtain ⟨k0, hk0, rfl⟩ := hkn
+  simp [grown, hn k0 hk0, hc k0 hk0]
+
 end Midgard.RinexObs
